@@ -362,7 +362,12 @@ Definition files_of (t : tables) (source pattern : string) (offs : list Z) : res
 Inductive op :=
 | LRun (avail req : list Z) (nsamp first sepCards sepCols : Z) (geom : list (Z * Z))
        (* ConfigureLanceroSource, then Start up to and including PrepareChannels *)
-| LAgain                                   (* Start again without a new Configure *)
+| LAgain (geom : list (Z * Z))
+  (* Start again without a new Configure; the i-th active card now delivers geom[i] = (ncols, nrows)
+     (cards beyond the list: as before) *)
+| LMid (avail req : list Z) (nsamp first sepCards sepCols : Z)
+  (* Start again; a ConfigureLanceroSource request with these arguments arrives while the source is Starting,
+     between Sample and PrepareChannels *)
 | APrep (pk : list (Z * Z))                (* Abaco: Sample on packets announcing (nchan, offset), PrepareChannels *)
 | RPrep (devs : list Z)                    (* Roach: devices with these channel counts *)
 | TPrep (n : Z) | SPrep (n : Z) | EPrep (n : Z)   (* Triangle, SimPulse, Erroring source with n channels *)
@@ -385,6 +390,17 @@ Inductive obs :=
 Record state := mkS { s_l : lsrc; s_last : option (tables * string) }.
 Definition state0 : state := mkS lsrc0 None.
 
+(* what Sample learns about the active cards at this start *)
+Fixpoint regeom (cards : list card) (geom : list (Z * Z)) : list card :=
+  match cards, geom with
+  | c :: cs, g :: gs => mkCard (c_dev c) (fst g) (snd g) :: regeom cs gs
+  | cs, _ => cs
+  end.
+Definition set_active (l : lsrc) (cards : list card) : lsrc :=
+  mkL cards (l_first l) (l_sepCards l) (l_sepCols l) (l_subdiv l) (l_mixed l) (l_cfgerr l).
+Definition set_cfgerr (l : lsrc) : lsrc :=
+  mkL (l_active l) (l_first l) (l_sepCards l) (l_sepCols l) (l_subdiv l) (l_mixed l) true.
+
 Definition acc (t : tables) : obs := OAcc t false [] (t_names t) (t_groups t).
 
 Definition lancero_start (l : lsrc) : lsrc * obs * option tables :=
@@ -405,9 +421,18 @@ Definition step (s : state) (o : op) : state * obs :=
       let (l1, ok) := lancero_configure (s_l s) avail req nsamp first sepCards sepCols geom in
       let '(l2, ob, r) := lancero_start l1 in
       (mkS l2 (match r with Some t => Some (t, "Lancero"%string) | None => None end), ob)
-  | LAgain =>
-      let '(l2, ob, r) := lancero_start (s_l s) in
+  | LAgain geom =>
+      (* Sample refuses after a failed Configure before it looks at the cards *)
+      let l1 := if l_cfgerr (s_l s) then s_l s else set_active (s_l s) (regeom (l_active (s_l s)) geom) in
+      let '(l2, ob, r) := lancero_start l1 in
       (mkS l2 (match r with Some t => Some (t, "Lancero"%string) | None => None end), ob)
+  | LMid avail req nsamp first sepCards sepCols =>
+      (* Configure refuses a source that is not Inactive and changes nothing; SourceControl remembers the
+         error in configError, which only the next Start looks at *)
+      if l_cfgerr (s_l s) then (mkS (s_l s) None, ORejCfg)
+      else
+        let '(l2, ob, r) := lancero_start (s_l s) in
+        (mkS (set_cfgerr l2) (match r with Some t => Some (t, "Lancero"%string) | None => None end), ob)
   | APrep pk =>
       match abaco_sample pk with
       | None => rejected (ORej 0 false 0)
